@@ -641,3 +641,57 @@ Theorem split_stage_preserved : forall L t m path, subset_of L ALL ->
   split_stage getinfo L t m path = split_stage getinfo ALL t m path.
 Proof. intros L t m path Hsub Hbit Hk. unfold split_stage. apply split_mode_preserved; assumption. Qed.
 End Stages.
+
+(* ==================================================================================================================
+   Part 4: the subsets the tokenizer actually holds (set_mode / set_subset in either order, Model/Codec.v) *)
+Lemma loaded_for_facts : order_ok = true -> forall s m0 m order, s < 1024 ->
+  subset_of (loaded_for s m0 m order) ALL /\
+  (m <> Split.ModeC -> N.testbit (loaded_for s m0 m order) (mode_bit m) = true) /\
+  (forall a, N.testbit s (acc_flag a) = true -> deps_loaded (loaded_for s m0 m order) a).
+Proof.
+  intros HO s m0 m order Hs.
+  unfold order_ok in HO. rewrite forallb_forall in HO. specialize (HO s (below_in 1024 s Hs)).
+  rewrite forallb_forall in HO. assert (Hm0 : In (cmode_of m0) all_modes) by (destruct m0; cbn; tauto). specialize (HO _ Hm0).
+  rewrite forallb_forall in HO. assert (Hm : In (cmode_of m) all_modes) by (destruct m; cbn; tauto). specialize (HO _ Hm).
+  apply andb_true_iff in HO as [O1 O2].
+  assert (Hok : tok_ok s (cmode_of m) (if order then set_subset s (set_mode (cmode_of m) (tok_create (cmode_of m0)))
+                                       else set_mode (cmode_of m) (set_subset s (tok_create (cmode_of m0)))) = true)
+    by (destruct order; assumption).
+  unfold tok_ok in Hok. apply andb_true_iff in Hok as [Hok K3]. apply andb_true_iff in Hok as [_ K2].
+  destruct (loads_ok_spec _ _ K2) as [H1 H2]. unfold loaded_for.
+  split; [exact H1|]. split; [|exact H2].
+  intros Hne. apply N.eqb_eq in K3.
+  assert (Hb : forall k, N.testbit (mode_bits (cmode_of m)) k = true ->
+               N.testbit (t_subset (if order then set_subset s (set_mode (cmode_of m) (tok_create (cmode_of m0)))
+                                    else set_mode (cmode_of m) (set_subset s (tok_create (cmode_of m0))))) k = true).
+  { intros k Hk. rewrite <- K3 in Hk. rewrite N.land_spec in Hk. apply andb_true_iff in Hk. tauto. }
+  destruct m; [apply Hb; reflexivity|apply Hb; reflexivity|contradiction].
+Qed.
+
+(* C11_boundaries_preserved, assembled for the tokenizer: requested subset s (any of the 2^10), initial mode, mode, either
+   order of the two calls.  With SURFACE, POS_ID and NORMALIZED_FORM requested, every plugin chain gives the same outcome
+   as with all fields and outputs that agree on ranges, surface, normalised form, part of speech and OOV flag; the split
+   stage of the mode gives the same sub-tokens (ranges and word ids) for ANY requested subset. *)
+Theorem boundaries_preserved : order_ok = true ->
+  forall getinfo, getinfo_ok getinfo ->
+  forall s m0 m order, s < 1024 ->
+  (N.testbit s 0 = true -> N.testbit s 2 = true -> N.testbit s 3 = true ->
+   forall pls path y, rewritten getinfo ALL pls path = Some y ->
+   exists x, rewritten getinfo (loaded_for s m0 m order) pls path = Some x /\ ores_rel num_fields_eq x y)
+  /\ (forall path y, rewritten getinfo ALL nil path = Some y ->
+      exists pr, rewritten getinfo (loaded_for s m0 m order) nil path = Some (Some (Ok pr)) /\ Forall2 from_path path pr)
+  /\ (forall t ps, words_known getinfo ps ->
+      Split.tokenize_mode (hw_of getinfo (loaded_for s m0 m order)) t
+        (units_of getinfo F_a (loaded_for s m0 m order)) (units_of getinfo F_b (loaded_for s m0 m order)) m ps =
+      Split.tokenize_mode (hw_of getinfo ALL) t (units_of getinfo F_a ALL) (units_of getinfo F_b ALL) m ps).
+Proof.
+  intros HO getinfo Hget s m0 m order Hs. destruct (loaded_for_facts HO s m0 m order Hs) as (Hsub & Hbit & Hdeps).
+  split; [|split].
+  - intros H0 H2 H3 pls path y Hy.
+    apply (rewritten_agree getinfo Hget _ pls path y Hsub); [| | |exact Hy].
+    + apply (Hdeps A_surface H0). left. reflexivity.
+    + apply (Hdeps A_pos H2). left. reflexivity.
+    + apply (Hdeps A_norm H3). left. reflexivity.
+  - intros path y Hy. apply (rewritten_no_plugin getinfo Hget _ path y Hsub Hy).
+  - intros t ps Hk. apply (split_mode_preserved getinfo Hget _ t m ps Hsub Hbit Hk).
+Qed.
